@@ -6,3 +6,7 @@ coq:
 clean:
 	cd coq && [ -f Makefile ] && $(MAKE) clean || true
 	rm -rf .work
+
+driver: coq
+	cd driver && coqc -Q ../coq PV Extract.v && ocamlfind ocamlopt -O3 -package zarith -linkpkg -w -a sim.mli sim.ml main.ml -o simdriver
+setup: driver
